@@ -43,8 +43,10 @@ def build_worker(variant="committed"):
     os.makedirs(BIN, exist_ok=True)
     h = os.path.join(VERIF, "harness")
     shutil.copyfile(os.path.join(REPO, "go.sum"), os.path.join(h, "go.sum"))
-    out = os.path.join(BIN, "pvworker" if variant == "committed" else "pvworker-regen")
+    out = os.path.join(BIN, {"committed": "pvworker", "regen": "pvworker-regen", "hooked": "pvworker-hooked"}[variant])
     cmd = ["go", "build", "-tags", "verif", "-o", out]
+    if variant == "hooked":
+        cmd += ["-overlay", hookgen_overlay()]
     if variant == "regen":
         ov = regen_parser_overlay()
         if ov is None:
@@ -59,6 +61,25 @@ def build_worker(variant="committed"):
     log(f"[build] {variant} worker built in {time.time()-t0:.1f}s")
     _built[variant] = out
     return out
+
+
+HOOKGEN_INFO = {}
+
+
+def hookgen_overlay():
+    """Auto-instrument /repo/object (lock operations and table accesses) into an overlay; see harness/cmd/hookgen."""
+    h = os.path.join(VERIF, "harness")
+    tool = os.path.join(BIN, "hookgen")
+    p = subprocess.run(["go", "build", "-o", tool, "./cmd/hookgen"], cwd=h, env=GOENV, capture_output=True, text=True)
+    if p.returncode != 0:
+        raise Broken("go build hookgen failed:\n" + p.stderr)
+    d = os.path.join(BIN, "hookgen_out")
+    shutil.rmtree(d, ignore_errors=True)
+    p = subprocess.run([tool, os.path.join(REPO, "object"), d], capture_output=True, text=True)
+    if p.returncode != 0:
+        raise Broken("hookgen failed:\n" + p.stdout + p.stderr)
+    HOOKGEN_INFO.update(json.loads(p.stdout))
+    return os.path.join(d, "overlay.json")
 
 
 def _strip_line_directives(text):
